@@ -35,9 +35,7 @@ func init() {
 		{Pkg: fw, Type: "Plugin", Opaque: true},
 		{Pkg: ".../plugin", Type: "Manager", Opaque: true},
 		{Pkg: ".../plugin", Func: "Manager.Get", Oracle: true},
-		{Pkg: v, Func: "processPluginResponse", NonNil: true},
-		// real target refused: `&envelopeContent.SignerInfo` / `&signerInfo.SignedAttributes.Expiry`: address-of a field
-		// reached through a pointer parameter (verifier/verifier.go:933, :949, :958)
+		// the plugin request and the nil answer (the plugin itself is the oracle VerifySignature)
 		{Pkg: fw, Func: "VerifyPlugin.VerifySignature", Oracle: true},
 		{Pkg: v, Func: "executePlugin"},
 		{Pkg: v, Func: "verifyIntegrity", Oracle: true},
@@ -46,9 +44,16 @@ func init() {
 		{Pkg: v, Func: "verifyX509TrustedIdentities", Oracle: true},
 		{Pkg: v, Func: "verifyExpiry", Oracle: true},
 		{Pkg: v, Func: "verifyAuthenticTimestamp", Oracle: true},
-		{Pkg: "github.com/notaryproject/notation-core-go/signature", Func: "(*SignerInfo).AuthenticSigningTime", Oracle: true},
+		// native revocation validation: the validator is a (nilable) function field of the verifier
+		{Pkg: sig, Func: "(*SignerInfo).AuthenticSigningTime", Oracle: true},
 		{Pkg: v, Func: "(*verifier).verifyRevocation"},
 		{Pkg: v, Func: "logVerificationResult", NonNil: true},
+		// Kept as documentation: REFUSED (the reason is printed on every run). processPluginResponse finds the
+		// authenticity result in outcome.VerificationResults and writes its Error through that pointer
+		// (verifier/verifier.go:680-687); processSignature sets authenticityResult.Error (:513) after the pointer was
+		// appended to outcome.VerificationResults (:501): aliasing, GoLite has no heap. The native validations above
+		// (verifyIntegrity .. verifyAuthenticTimestamp) are the oracles processSignature would have; C03 C04 C06 own them.
+		{Pkg: v, Func: "processPluginResponse", NonNil: true},
 		{Pkg: v, Func: "(*verifier).processSignature", NonNil: true},
 	})
 }
